@@ -487,6 +487,68 @@ theorem C18_close_resets (p : Px) :
     Act.closeServer ∈ (closeConnection p).2 ∧ (Act.accept ∈ (closeConnection p).2 ↔ p.close = false) := by
   cases hc : p.close <;> simp [closeConnection, hc]
 
+/-! ### the pinned tree (what was wrong, stated on transcriptions of the ORIGINAL statements) -/
+
+/-- `forward_request` of the pinned tree: `host_end = req.req.substr(0, path_start).find_last_of(':')`
+    with no bracket rule (everything else as in `rewrite`) -/
+def rewritePinned (r : Request) : Except Unit Rewritten :=
+  if r.req.take 7 ≠ HTTP_PFX then .error ()
+  else
+    let pathStart := findFirstFrom r.req 47 7
+    let pathPart := match pathStart with | none => [47] | some ps => r.req.drop ps
+    let authority := match pathStart with | none => r.req | some ps => r.req.take ps
+    let hostEnd := findLast authority 58
+    let portAt : Option Nat := match hostEnd with | some he => if he > 7 then some he else none | none => none
+    let host0 := match portAt with
+      | some he => (r.req.drop 7).take (he - 7)
+      | none => match pathStart with | some ps => (r.req.drop 7).take (ps - 7) | none => r.req.drop 7
+    let host := stripBrackets host0
+    let port : Int := match portAt with
+      | none => 80
+      | some he => atoi (match pathStart with | some ps => (r.req.drop (he + 1)).take ps | none => r.req.drop (he + 1))
+    let foundHost := r.headers.any (fun h => h.1 == HOST_KEY)
+    .ok { host := host, port := port, out := r.method ++ [32] ++ pathPart ++ HTTP11 ++ headerLines r.headers ++ (if foundHost then [] else HOST_HDR ++ host ++ CRLF) ++ CRLF }
+
+/-- whom a rewritten request is for -/
+def dials (e : Except Unit Rewritten) : Option (Bytes × Int) :=
+  match e with
+  | .ok r => some (r.host, r.port)
+  | .error _ => none
+
+/-- `http://[2001:db8::3]/a` -/
+def exV6NoPort : Bytes := [104, 116, 116, 112, 58, 47, 47, 91, 50, 48, 48, 49, 58, 100, 98, 56, 58, 58, 51, 93, 47, 97]
+
+/-- F26a: for a bracketed IPv6 literal WITHOUT port the pinned code took the last ':' inside the
+    brackets for the port separator: it looked up the name `[2001:db8:` and would have dialled port 3;
+    the repaired `rewrite` dials (`2001:db8::3`, 80). Confirmed on the real library
+    (corpus/C18/f26a_ipv6_literal_without_port.scn: the lookup of name=5b323030313a6462383a). -/
+theorem C18_pinned_ipv6_without_port :
+    dials (rewritePinned { method := [71], req := exV6NoPort, path := [], headers := [] })
+      = some ([91, 50, 48, 48, 49, 58, 100, 98, 56, 58], 3) ∧
+    dials (rewrite { method := [71], req := exV6NoPort, path := [], headers := [] })
+      = some ([50, 48, 48, 49, 58, 100, 98, 56, 58, 58, 51], 80) := by
+  decide
+
+/-- `on_server_write` of the pinned tree (no test at the top at all) -/
+def onServerWritePinned (p : Px) (ec : Ec) (n : Nat) : Px × List Act :=
+  let p := { p with writing := false }
+  if ec ≠ .ok then closeConnection p
+  else if n > p.nSout then (p, [.ub "memmove size underflow in on_server_write"])
+  else (p, [])     -- (the rest is as in `onServerWrite`)
+
+/-- F26d: a write completion that was already posted with success when `close_connection()` ran
+    (one chunk holding a good request followed by a malformed one is enough) reached
+    `memmove(buf, buf + n, size_t(0 - n))` in the pinned tree — undefined behaviour, an
+    AddressSanitizer `negative-size-param` on the real library
+    (corpus/C18/f26d_write_completion_after_close.scn). The repaired callback ignores it
+    (`C18_stale_ignored`), and under `PS.ok` the repaired model never produces `ub` (`C18_no_ub`). -/
+theorem C18_pinned_write_completion_after_close (p : Px) (n : Nat) (hn : 0 < n) :
+    (onServerWritePinned (closeConnection p).1 .ok n).2 = [.ub "memmove size underflow in on_server_write"] ∧
+    onServerWrite (closeConnection p).1 p.session .ok n = ((closeConnection p).1, []) := by
+  constructor
+  · simp [onServerWritePinned, closeConnection, hn]
+  · simp [onServerWrite, stale, closeConnection]
+
 /-! ## Non-vacuity -/
 
 /-- a concrete well-behaved history: a client is accepted, sends "G" and then "E", the proxy is
@@ -495,7 +557,7 @@ def exRun : List Ev := [.accepted .ok, .clientData [71], .clientData [69], .stop
 
 example : PS.okRun (fun _ => none) (PS.init 4444) exRun := by
   simp [exRun, PS.okRun, PS.ok, PS.step, PS.init, PS.apply, PS.act, construct, onAccept, onReadRequest, stale,
-    memWrite, memRead, padTo, requestLoop, findRequestLen, find, findLoop, CRLFCRLF, BUF, stop, readN]
+    memWrite, memRead, padTo, requestLoop, findRequestLen, find, findLoop, CRLFCRLF, BUF, stop]
   exact ⟨⟨0, 65536, ⟨rfl, rfl⟩, by omega⟩, ⟨1, 65535, ⟨rfl, rfl⟩, by omega⟩⟩
 
 example : Reach (fun _ => none) 4444 ((PS.init 4444).run (fun _ => none) []) := ⟨[], trivial, rfl⟩
